@@ -156,6 +156,7 @@ def step (s : S) : List String → S × String
       | .panic site => ({ s with pending := none, txs := [], events := [], dead := some site }, s!"panic {site}")
       | .err e => ({ s with pending := none, txs := [], events := [], dead := some e }, s!"err {e}")
   | ["dump", name] => (s, renderSection s.cfg s.st name)
+  | ["index.oracle.nofail", _, _] => (s, toString s.dead.isNone)
   | ["events"] => (s, joinOr (canonEvents (s.events.map renderEvent)) "|")
   | _ => (s, "bad-op")
 
